@@ -236,11 +236,14 @@ class Check:
         viols = [v for r in results for v in r["violations"]]
         new_viol, known_hit = [], {}
         os.makedirs(os.path.join(VERIF, "replay"), exist_ok=True)
+        confirmed_keys = set()
         for v in viols:
             hit = [k for k in known_here if k["key"] == v["key"]]
             if hit:
                 known_hit[v["key"]] = hit[0]
                 continue
+            if v["key"] in confirmed_keys:
+                continue  # one confirmed replay per key is enough
             h = hashlib.sha1((v["key"] + v["what"] + json.dumps(v["point"], sort_keys=True)).encode()).hexdigest()[:10]
             path = os.path.join(VERIF, "replay", "%s_%s.py" % (self.pid, h))
             with open(path, "w") as f:
@@ -250,8 +253,10 @@ class Check:
             if ok:
                 v["replay"] = path
                 new_viol.append(v)
+                confirmed_keys.add(v["key"])
             else:
-                inconclusive.append("counterexample for %s did not reproduce in a clean interpreter (%s)" % (v["what"], path))
+                os.unlink(path)
+                inconclusive.append("counterexample for %s did not reproduce in a clean interpreter" % (v["what"],))
         for k, rec in known_hit.items():
             print("KNOWN-FINDING: property=%s %s (key=%s)" % (self.pid, rec["what"], k))
         seen = set()
